@@ -239,4 +239,70 @@ CANARIES = {
             "cases": ["algebra"], "what": "LogRepFloat subtraction with swapped operands",
         },
     },
+    "C12": {
+        "metropolis_ignores_nan": {
+            "module": "mici.transitions",
+            "old": "            accept_prob = 0.0 if np.isnan(h_diff) else np.exp(min(0, h_diff))\n        else:",
+            "new": "            accept_prob = 1.0 if np.isnan(h_diff) else np.exp(min(0, h_diff))\n        else:",
+            "cases": ["transition/static"], "what": "NaN energy difference accepted instead of rejected",
+        },
+        "flag_not_recorded": {
+            "module": "mici.transitions",
+            "old": "    elif isinstance(exception, ConvergenceError):\n        stats[\"convergence_error\"] = True",
+            "new": "    elif isinstance(exception, ConvergenceError):\n        stats[\"convergence_error\"] = False",
+            "cases": ["transition/static"], "what": "solver failure not recorded in the statistics",
+        },
+        "dynamic_nan_energy_kept": {
+            "module": "mici.transitions",
+            "old": "                h = np.inf if np.isnan(h) else h",
+            "new": "                h = -1e3 if np.isnan(h) else h",
+            "cases": ["transition/multinomial/energies"], "what": "NaN energy turned into a very favourable one",
+        },
+        "fixed_point_returns_unconverged": {
+            "module": "mici.solvers",
+            "old": "            if error < convergence_tol:\n                return x\n            x0 = x\n    except (ValueError, LinAlgError) as e:\n        # Make robust to errors in intermediate linear algebra ops\n        msg = f\"{type(e)} at iteration {i} of fixed point solver ({e}).\"\n        raise ConvergenceError(msg) from e\n    msg = f\"Fixed point iteration did not converge. Last error={error:.1e}.\"\n    raise ConvergenceError(msg)\n\n\ndef solve_fixed_point_steffensen",
+            "new": "            if error < convergence_tol:\n                return x\n            x0 = x\n    except (ValueError, LinAlgError) as e:\n        # Make robust to errors in intermediate linear algebra ops\n        msg = f\"{type(e)} at iteration {i} of fixed point solver ({e}).\"\n        raise ConvergenceError(msg) from e\n    return x\n\n\ndef solve_fixed_point_steffensen",
+            "cases": ["fixed_point/solve_fixed_point_direct"], "what": "direct solver returns the last iterate instead of raising when max_iters is exhausted",
+        },
+        "solver_lets_valueerror_escape": {
+            "module": "mici.solvers",
+            "old": "    except (ValueError, LinAlgError) as e:\n        # Make robust to errors in intermediate linear algebra ops\n        msg = f\"{type(e)} at iteration {i} of quasi-Newton solver ({e}).\"",
+            "new": "    except LinAlgError as e:\n        # Make robust to errors in intermediate linear algebra ops\n        msg = f\"{type(e)} at iteration {i} of quasi-Newton solver ({e}).\"",
+            "cases": ["projection/solve_projection_onto_manifold_quasi_newton"], "what": "ValueError from the constraint function escapes the quasi-Newton solver",
+        },
+    },
+    "C09": {
+        "assignment_does_not_invalidate": {
+            "module": "mici.states",
+            "old": "            for dep in self._dependencies[name]:\n                self._cache[dep] = None",
+            "new": "            for dep in self._dependencies[name]:\n                pass",
+            "cases": ["euclid/plain/h0"], "what": "assigning a state variable leaves dependent cache entries valid",
+        },
+        "gauss_dh2_dpos_cached_on_mom": {
+            "module": "mici.systems",
+            "old": "    def dh2_dpos(self, state: ChainState) -> ArrayLike:\n        return state.pos.copy()",
+            "new": "    @cache_in_state(\"mom\")\n    def dh2_dpos(self, state: ChainState) -> ArrayLike:\n        return state.pos.copy()",
+            "cases": ["gauss/plain/h0"], "what": "the original defect: dependency declared on the wrong variable",
+        },
+        "cache_key_ignores_system_identity": {
+            "module": "mici.states",
+            "old": "    return (f\"{type(system).__name__}.{method}\", id(system))",
+            "new": "    return (f\"{type(system).__name__}.{method}\", 0)",
+            "cases": ["euclid/two_systems"], "what": "two system objects of one class share cache entries of a common state",
+        },
+    },
+    "C18": {
+        "copy_drops_cache": {
+            "module": "mici.states",
+            "old": "            _cache=self._cache.copy(),",
+            "new": "            _cache={},",
+            "cases": ["hist/euclid/plain"], "what": "copies start with an empty cache (recomputation after every copy)",
+        },
+        "auxiliary_outputs_not_stored": {
+            "module": "mici.states",
+            "old": "                    for k, v in zip(keys, vals, strict=False):\n                        state._cache[k] = v",
+            "new": "                    state._cache[prim_key] = vals[0]",
+            "cases": ["aux/euclid"], "what": "values returned alongside derivatives are thrown away",
+        },
+    },
 }
